@@ -46,7 +46,7 @@ MODELS = {
            ["g1", "g2", "g3", "g4"], ["Running", "Releasing"], 2, 8),
     "t1": (dict(n=2, gpumem=100, cpu=4000, maxpods=4),
            [FRAC(1000, 50), FRAC(1000, 50), FRAC(2000, 70), WHOLE(1000, 1), CPU(2000)],
-           ["g1", "g2", "g3", "g4", "g5"], ["Running", "Releasing", "Binding"], 3, 9),
+           ["g1", "g2", "g3", "g4", "g5"], ["Running", "Releasing", "Binding"], 3, 8),
     "t2": (dict(n=3, gpumem=100, cpu=5000, maxpods=4),
            [FRAC(1000, 50, 2), FRAC(1000, 50), FRAC(1000, 30), WHOLE(1000, 2), RESV(1000)],
            ["g1", "g2", "g3", "g4", "g5"], ["Running", "Releasing", "Bound"], 3, 8),
@@ -94,7 +94,9 @@ def model_pass(ctx, name, prefixes):
     d = vlib.prepare_spec_dir(ctx, "na-mc-" + name)
     mod, cfg = vlib.write_model(d, MODULE, "NA_mc", model_constants(m), spec="Spec", invariants=["ModelTriage"],
                                 action_constraints=["Edge"], view="view")
-    r = vlib.tlc(ctx, d, mod, cfg, workers=1, timeout=3000, heap="6g")
+    # quick: 1 worker (deterministic BFS). thorough: 4 workers; every printed line is parsed and the
+    # number of state identities is compared with TLC's distinct-state count below
+    r = vlib.tlc(ctx, d, mod, cfg, workers=1 if ctx.quick else 4, timeout=6000, heap="6g")
     if not r.ok:
         raise vlib.Infra("NodeAcct model pass failed: %s\n%s" % (r.violated, vlib.tail_errors(r.out)))
     ctx.add_tlc(r)
@@ -149,7 +151,7 @@ def classify(v, name):
 def triage(ctx, trace_path, tag):
     d = vlib.prepare_spec_dir(ctx, "na-triage-" + tag, extra_files={trace_path: "trace.ndjson"})
     mod, cfg = vlib.write_model(d, TRACE, "NA_tr", DUMMY, overrides={"CurE": "TraceE"}, spec="TraceSpec", invariants=["Triage"])
-    r = vlib.tlc(ctx, d, mod, cfg, workers=1, timeout=3000, heap="8g")
+    r = vlib.tlc(ctx, d, mod, cfg, workers=1 if ctx.quick else 4, timeout=6000, heap="8g")
     if not r.ok:
         raise vlib.Infra("NodeAcctTrace triage failed: %s\n%s" % (r.violated, vlib.tail_errors(r.out)))
     ctx.add_tlc(r)
@@ -276,7 +278,7 @@ def run_stage(ctx, prefixes):
         ctx.stage("real-replay-" + name, **info)
         account(ctx, trace)
         validate(ctx, trace, name, prefixes)
-    nrandom, steps = (1500, 40) if ctx.quick else (30000, 60)
+    nrandom, steps = (1500, 40) if ctx.quick else (8000, 60)
     rnd = os.path.join(ctx.scratch, "na-trace-rnd.ndjson")
     p = vlib.run_harness(binary, ["-random", str(nrandom), "-steps", str(steps), "-seed", str(ctx.seed), "-out", rnd])
     ctx.stage("real-run-random", **json.loads(p.stdout.strip().splitlines()[-1]))
